@@ -470,13 +470,13 @@ Lemma try_sh_correct : forall num den sh q' sh', try_sh num den sh = Some (q', s
   sh' = sh /\ half_ulp_ok (fst (scaled num den sh)) (snd (scaled num den sh)) q' /\ range_ok q' sh.
 Proof.
   intros num den sh q' sh' H. unfold try_sh in H. destruct (scaled num den sh) as [n d]. cbn [fst snd].
-  set (q := fdiv n d) in *. set (r := n - q * d) in *.
+  remember (fdiv n d) as q eqn:Eq. clear Eq. remember (n - q * d) as r eqn:Er.
   destruct ((0 <=? r) && (r <? d) &&
             ((2 ^ 52 <=? q) && (q <? 2 ^ 53) || (sh =? -1074) && (0 <=? q) && (q <? 2 ^ 52))) eqn:C; [|discriminate].
   injection H as <- <-.
   apply andb_true_iff in C as [C R]. apply andb_true_iff in C as [C1 C2].
   apply Z.leb_le in C1. apply Z.ltb_lt in C2.
-  assert (En : n = q * d + r) by (unfold r; ring).
+  assert (En : n = q * d + r) by (rewrite Er; ring).
   destruct (round_qr_correct q r d (conj C1 C2)) as (A & B & Rg).
   rewrite <- En in A, B.
   split; [reflexivity|]. split.
